@@ -4,6 +4,7 @@ import (
 	"go/ast"
 	"go/token"
 	"go/types"
+	"golang.org/x/tools/go/packages"
 	"sort"
 	"strings"
 
@@ -58,9 +59,10 @@ func c10resetAs(c *core.Ctx, R string) {
 			if i+1 < len(list) {
 				if ds, ok := list[i+1].(*ast.DeferStmt); ok {
 					why = "the deferred function does not call a reset method of the value and then Put"
-					if fl, ok := ds.Call.Fun.(*ast.FuncLit); ok {
+					// the deferred work: a literal, or a named helper of the package that gets the value
+					analyse := func(apk *packages.Package, stmts []ast.Stmt, obj types.Object) {
 						sawPut := false
-						for _, s2 := range fl.Body.List {
+						for _, s2 := range stmts {
 							es, ok := s2.(*ast.ExprStmt)
 							if !ok {
 								continue
@@ -70,19 +72,39 @@ func c10resetAs(c *core.Ctx, R string) {
 								continue
 							}
 							if se, ok := call.Fun.(*ast.SelectorExpr); ok {
-								if id, ok := se.X.(*ast.Ident); ok && pk.TypesInfo.ObjectOf(id) == vobj && !sawPut {
-									if f, ok := core.Callee(pk, call).(*types.Func); ok {
+								if id, ok := se.X.(*ast.Ident); ok && apk.TypesInfo.ObjectOf(id) == obj && !sawPut {
+									if f, ok := core.Callee(apk, call).(*types.Func); ok {
 										resetFn = f
 									}
 								}
 							}
-							if strings.HasSuffix(core.FullName(core.Callee(pk, call)), "Pool).Put") && len(call.Args) == 1 {
-								if id, ok := call.Args[0].(*ast.Ident); ok && pk.TypesInfo.ObjectOf(id) == vobj {
+							if strings.HasSuffix(core.FullName(core.Callee(apk, call)), "Pool).Put") && len(call.Args) == 1 {
+								if id, ok := call.Args[0].(*ast.Ident); ok && apk.TypesInfo.ObjectOf(id) == obj {
 									sawPut = true
 								}
 							}
 						}
 						okDefer = resetFn != nil && sawPut
+					}
+					if fl, ok := ds.Call.Fun.(*ast.FuncLit); ok {
+						analyse(pk, fl.Body.List, vobj)
+					} else if hf, ok := core.Callee(pk, ds.Call).(*types.Func); ok {
+						if hd := c.P.FindDecl(core.Rel(hf.FullName())); hd != nil && hd.Decl.Body != nil {
+							for ai, a := range ds.Call.Args {
+								if id, ok := a.(*ast.Ident); ok && pk.TypesInfo.ObjectOf(id) == vobj {
+									// the parameter that receives the value
+									k := 0
+									for _, f := range hd.Decl.Type.Params.List {
+										for _, nm := range f.Names {
+											if k == ai {
+												analyse(hd.Pkg, hd.Decl.Body.List, hd.Pkg.TypesInfo.ObjectOf(nm))
+											}
+											k++
+										}
+									}
+								}
+							}
+						}
 					}
 				}
 			}
